@@ -295,8 +295,8 @@ class Cross(Driver):
             yield dict(net=unit["net"], signer=sg, msg=m), BAD("sign-raises", "signs", exc_text(e), clause="exception-in-sign")
             return
         for v in sgs:
-            for how in ("key", "address", "foreign-address"):
-                for vm in (self.msgs if how != "foreign-address" else [m]):
+            for how in ("key", "address", "foreign-address", "p2sh-same-hash"):
+                for vm in (self.msgs if how in ("key", "address") else [m]):
                     case = dict(net=unit["net"], signer=sg, msg=m, verifier=dict(v, how=how), vmsg=vm, sig=sig)
                     yield case, self.run(case)
 
@@ -308,6 +308,8 @@ class Cross(Driver):
         want = same_secret and text == vtext and (v["how"] == "key" or same_comp)
         if v["how"] == "foreign-address":
             want = False        # the same key's address on ANOTHER network is another address: must fail to verify, not raise
+        if v["how"] == "p2sh-same-hash":
+            want = False        # a script-hash address built from the key's 20 hash bytes is not the key's address
         try:
             decoy_hash(case["net"], text)
             decoy_hash(case["net"], vtext)
@@ -321,6 +323,8 @@ class Cross(Driver):
             if v["how"] == "foreign-address":
                 other = network("LTC" if case["net"] != "LTC" else "BTC")
                 who = other.keys.public(Qv, is_compressed=bool(v["compressed"])).address()
+            if v["how"] == "p2sh-same-hash":
+                who = net.address.for_p2sh(vk.hash160())
         except Exception as e:
             return BAD("setup-raises", "keys and signature constructible", exc_text(e), clause="exception-in-setup")
         res, err = call_verify(net, who, sig, vtext)
@@ -339,6 +343,13 @@ class Cross(Driver):
 
 
 # ---------------------------------------------------------------- totality over signature text
+def point_x_at_or_above(x):
+    """smallest x' >= x that is the x coordinate of a curve point"""
+    while k1.lift_x(x, 0) is None:
+        x += 1
+    return x
+
+
 def no_point_x():
     x = 2
     while k1.lift_x(x, 0) is not None:
@@ -349,7 +360,7 @@ def no_point_x():
 class SigText(Driver):
     id = "C17.sigtext"
     rule = ("verify(key | address, text, message) over signature text: base64 of every first byte 0..255 x r in {0,1,r*,x with "
-            "no point,n-1,n,p-1,p,2^256-1} x s in {0,1,s*,n-s*,n-1,n,2^256-1}; every other length 0..70; non-base64, wrongly "
+            "no point,n-1,n,p-1,p,2^256-1, least x>n with a curve point, least x>=1 with a curve point} x s in {0,1,s*,n-s*,n-1,n,2^256-1}; every other length 0..70; non-base64, wrongly "
             "padded, non-ASCII, whitespace-laced text.  The result must be a bool; the reference recovery decides for which "
             "key (if any) it must be True.  non-trivial = header in 27..34 or text that is not canonical base64")
     NETS = ("BTC",)
@@ -357,7 +368,7 @@ class SigText(Driver):
     def __init__(self, tier, seed):
         Driver.__init__(self, tier, seed)
         self.nets = ("BTC",) if tier == "quick" else ("BTC", "DOGE")
-        self.bound = dict(networks=list(self.nets), first_bytes=256, r_alphabet=9, s_alphabet=7, other_lengths="0..70 except 65",
+        self.bound = dict(networks=list(self.nets), first_bytes=256, r_alphabet=11, s_alphabet=7, other_lengths="0..70 except 65",
                           malformed_texts=len(self.malformed("QUJD")), verifiers=["signer key", "signer address", "signer other-compression address",
                                                                                   "key recovered by the reference", "key recovered by pycoin"])
 
@@ -371,7 +382,7 @@ class SigText(Driver):
 
     def r_alphabet(self, r):
         return [("r*", r), ("1", 1), ("no-point", no_point_x()), ("0", 0), ("n-1", N - 1), ("n", N), ("p-1", P - 1), ("p", P),
-                ("2^256-1", 2 ** 256 - 1)]
+                ("2^256-1", 2 ** 256 - 1), ("n<x<p-with-point", point_x_at_or_above(N + 1)), ("x<n-with-point-below-n", point_x_at_or_above(1))]
 
     def s_alphabet(self, s):
         return [("s*", s), ("n-s*", N - s), ("1", 1), ("n-1", N - 1), ("0", 0), ("n", N), ("2^256-1", 2 ** 256 - 1)]
@@ -501,7 +512,79 @@ class SigText(Driver):
         return 3
 
 
-DRIVERS = [Roundtrip, Cross, SigText]
+# ---------------------------------------------------------------- hierarchical key flavours (their own address kinds)
+class Flavours(Driver):
+    id = "C17.flavours"
+    rule = ("networks defining BIP49 / BIP84 prefixes x hierarchical key flavour {bip32, bip49, bip84} x 2 seeds x child {master, 0/1} x "
+            "messages: the signature verifies for the node, its public copy and ITS OWN address (P2PKH, P2SH-P2WPKH or P2WPKH "
+            "as the flavour says), the armoured form carries that address and verifies after parsing, another message and "
+            "another node's address fail; non-trivial = flavour other than bip32")
+    NETS = ("BTC", "XTN", "LTC")
+
+    def __init__(self, tier, seed):
+        Driver.__init__(self, tier, seed)
+        names = ("empty", "hello", "multi-lf") if tier == "quick" else tuple(m["name"] for m in MESSAGES)
+        self.msgs = [m for m in MESSAGES if m["name"] in names]
+        self.bound = dict(networks=list(self.NETS), flavours=["bip32", "bip49", "bip84"], seeds=2, children=["m", "m/0/1"],
+                          messages=[m["name"] for m in self.msgs])
+
+    def units(self):
+        for code in self.NETS:
+            for fl in ("bip32", "bip49", "bip84"):
+                for sd in (0, 1):
+                    for child in ("", "0/1"):
+                        yield dict(net=code, flavour=fl, seedno=sd, child=child)
+
+    def execute(self, unit):
+        for m in self.msgs:
+            case = dict(unit, msg=m, seed=self.seed)
+            yield case, self.run(case)
+
+    def run(self, case):
+        text = msg_text(case["msg"])
+        n = 0
+        try:
+            net = network(case["net"])
+            deser = getattr(net.keys, case["flavour"] + "_deserialize", None)
+            if deser is None or getattr(net.parse, "_%s_prv_prefix" % case["flavour"], None) is None:
+                return OK("trivial-flavour-not-defined")
+            master = net.keys.bip32_seed(b"vf-c17-%d-%d" % (case.get("seed", 0), case["seedno"]))
+            other = net.keys.bip32_seed(b"vf-c17-other")
+            node = deser(b"\0\0\0\0" + master.serialize(as_private=True))
+            onode = deser(b"\0\0\0\0" + other.serialize(as_private=True))
+            if case["child"]:
+                node = node.subkey_for_path(case["child"])
+            sig = net.msg.sign(node, text)
+            addr = node.address()
+            n += 1
+            for who, desc, want in ((node, "signing node", True), (node.public_copy(), "public copy", True), (addr, "its address %s" % addr, True),
+                                    (onode.address(), "another node's address", False), (onode, "another node", False)):
+                res, err = call_verify(net, who, sig, text)
+                n += 1
+                want_bool("%s signature" % case["flavour"], desc, want, res, err)
+            res, err = call_verify(net, addr, sig, text + "x")
+            n += 1
+            want_bool("other message", "its address", False, res, err)
+            if ref.armour_side_conditions(text):
+                m2, a2, s2 = net.msg.parse_signed(net.msg.sign(node, text, verbose=True))
+                n += 1
+                if (m2, a2, s2) != (text, addr, sig):
+                    raise Mismatch("armour-roundtrip", "(message, %s, %s)" % (addr, sig), "(%r, %r, %r)" % (m2[:60], a2, s2), clause="armour")
+                res, err = call_verify(net, a2, s2, m2)
+                n += 1
+                want_bool("parsed armoured message", "the address the armour carries (%s)" % a2, True, res, err)
+        except Mismatch as mm:
+            return BAD(mm.cls, mm.ref, mm.impl, n=n, flavour=case["flavour"], **mm.tags)
+        except Exception as ex:
+            return BAD("exception", "sign/verify/parse succeed", exc_text(ex), n=n, clause="exception-in-roundtrip", flavour=case["flavour"])
+        return OK("flavour:%s" % case["flavour"], n=n)
+
+    def nontrivial(self, cls):
+        return cls.startswith("flavour:") and cls != "flavour:bip32"
+
+
+
+DRIVERS = [Roundtrip, Cross, SigText, Flavours]
 ASSUMPTIONS = [
     "keys: secrets {1, 2, n-1, two seed-selected} x compressed/uncompressed; messages from the stated alphabet (<= 70 000 bytes)",
     "armoured form is required to round-trip only for messages with one newline style and no armour marker lines (property side condition)",
